@@ -23,28 +23,94 @@ def job_svg(job):
     res = {'evaluations': 0, 'obligations': 0, 'discharged': 0, 'failures': [], 'nontrivial': [], 'samples': [],
            'validation': {'cases': 0, 'disagreements': 0}, 'vacuity': 0,
            'stubs': ['SvgBuilder::to_str -> an uninterpreted String S', 'File::create -> arbitrary Ok(file)/Err(e1)',
-                     'Write::write_all -> arbitrary Ok(())/Err(e2), arguments logged']}
+                     'Write::write_all on File -> arbitrary Ok(())/Err(e2); on success the file holds the bytes written',
+                     'BufWriter<File>: write_all either buffers (Ok, no I/O) or writes through (arbitrary outcome); flush writes the pending bytes '
+                     '(arbitrary outcome); dropping it attempts the pending write and swallows a failure (std documented behaviour)']}
     I = M.Interp(prog)
-    log = {}
+    log = {'writes': [], 'files': []}
     S0 = I.lib.new_string([T.zext(8, 32, T.var('content%d' % i, 8, below=128)) for i in range(4)])
+    counter = [0]
+
+    def fresh(name):
+        counter[0] += 1
+        return T.var('%s_%d' % (name, counter[0]), 1)
+
+    def is_rendering(bytes_ref):
+        return type(bytes_ref) is SliceRef and bytes_ref.c is S0[0] and bytes_ref.start == 0 and bytes_ref.len == len(S0[0])
 
     def stub_to_str(I_, args):
-        log['to_str'] = True
+        log['to_str'] = log.get('to_str', 0) + 1
         return S0
 
     def stub_create(I_, args):
-        r, fail, err = sym_result(I_, 'create_fails', I_.mk(['file'], 'File'), 'IoError')
-        log['create'] = (tuple(I_.pc), fail, err, r)
-        return r
+        fail = T.var('create_fails', 1)
+        err = I_.mk([T.var('errid_create', 8)], 'IoError')
+        # File: [holds exactly the rendering (width-1), something other than the rendering was ever written (width-1)]
+        f = I_.mk([0, 0], 'File')
+        log['files'].append(f)
+        log['create'] = (tuple(I_.pc), fail, err)
+        return I_.mk([T.zext(1, 64, fail), {0: I_.mk([f]), 1: I_.mk([err])}], 'symenum')
 
-    def stub_write(I_, args):
-        r, fail, err = sym_result(I_, 'write_fails', (), 'IoError')
+    def raw_write(I_, f, bytes_ref, ok):
+        """a write of bytes_ref reaches the file iff ok"""
+        if is_rendering(bytes_ref):
+            I_.write(f, 0, T.ite(1, ok, T.lnot(f[1]), f[0]))
+        else:
+            I_.write(f, 1, T.lor(f[1], ok))
+            I_.write(f, 0, T.land(f[0], T.lnot(ok)))
+
+    def stub_write_file(I_, args):
         f = args[0].c[args[0].k]
-        log['write'] = (tuple(I_.pc), fail, err, f, args[1])
-        return r
+        fail = fresh('write_fails')
+        err = I_.mk([T.var('errid_write', 8)], 'IoError')
+        log['writes'].append((tuple(I_.pc), 'file', fail, err, args[1]))
+        raw_write(I_, f, args[1], T.lnot(fail))
+        return I_.mk([T.zext(1, 64, fail), {0: I_.mk([()]), 1: I_.mk([err])}], 'symenum')
+
+    def stub_bw_new(I_, args):
+        return I_.mk([args[0], None, 0], 'BufWriter')          # [file, pending bytes, pending flag]
+
+    def stub_bw_write(I_, args):
+        bw = args[0].c[args[0].k]
+        through = fresh('bufwriter_writes_through')
+        fail = fresh('write_fails')
+        err = I_.mk([T.var('errid_write', 8)], 'IoError')
+        log['writes'].append((tuple(I_.pc), 'bufwriter', T.land(through, fail), err, args[1]))
+        raw_write(I_, bw[0], args[1], T.land(through, T.lnot(fail)))
+        I_.write(bw, 1, args[1])
+        I_.write(bw, 2, T.lor(bw[2], T.lnot(through)))
+        eff_fail = T.land(through, fail)
+        return I_.mk([T.zext(1, 64, eff_fail), {0: I_.mk([()]), 1: I_.mk([err])}], 'symenum')
+
+    def stub_bw_flush(I_, args):
+        bw = args[0].c[args[0].k]
+        fail = fresh('flush_fails')
+        err = I_.mk([T.var('errid_flush', 8)], 'IoError')
+        pend = bw[2]
+        if bw[1] is not None:
+            raw_write(I_, bw[0], bw[1], T.land(pend, T.lnot(fail)))
+        I_.write(bw, 2, T.land(pend, fail))
+        eff = T.land(pend, fail)
+        return I_.mk([T.zext(1, 64, eff), {0: I_.mk([()]), 1: I_.mk([err])}], 'symenum')
+
+    def drop_bw(I_, bw):
+        if bw[1] is not None:
+            hidden_fail = fresh('flush_on_drop_fails')
+            raw_write(I_, bw[0], bw[1], T.land(bw[2], T.lnot(hidden_fail)))
+            I_.write(bw, 2, 0)
+    I.drop_hooks['BufWriter'] = drop_bw
     I.stubs['SvgBuilder::to_str'] = stub_to_str
     I.stubs['std::fs::File::create::<&str>'] = stub_create
-    I.stubs['<std::fs::File as std::io::Write>::write_all'] = stub_write
+    for nm in ('<std::fs::File as std::io::Write>::write_all', '<File as std::io::Write>::write_all', '<std::fs::File as Write>::write_all'):
+        I.stubs[nm] = stub_write_file
+    for nm in ('BufWriter::<std::fs::File>::new', 'BufWriter::<File>::new', 'std::io::BufWriter::<std::fs::File>::new'):
+        I.stubs[nm] = stub_bw_new
+    for nm in ('<BufWriter<std::fs::File> as std::io::Write>::write_all', '<BufWriter<File> as std::io::Write>::write_all',
+               '<std::io::BufWriter<std::fs::File> as std::io::Write>::write_all', '<BufWriter<std::fs::File> as Write>::write_all'):
+        I.stubs[nm] = stub_bw_write
+    for nm in ('<BufWriter<std::fs::File> as std::io::Write>::flush', '<BufWriter<File> as std::io::Write>::flush',
+               '<std::io::BufWriter<std::fs::File> as std::io::Write>::flush', '<BufWriter<std::fs::File> as Write>::flush'):
+        I.stubs[nm] = stub_bw_flush
     path = I.const_val(type('C', (), {'kind': 'str', 'val': b'out.svg'})())
     b = I.mk(['builder'], 'opaque')
     q = I.mk(['qr'], 'opaque')
@@ -54,34 +120,32 @@ def job_svg(job):
         raise Inconclusive('to_file diverges')
     items = []
     c_fail = log['create'][1] if 'create' in log else 0
-    items.append(('the rendering is produced once', 1 if log.get('to_str') else 0))
+    items.append(('the rendering is produced', 1 if log.get('to_str') else 0))
     items.append(('File::create is called', 1 if 'create' in log else 0))
-    items.append(('write_all is attempted', 1 if 'write' in log else 0))
-    if 'write' in log and 'create' in log:
-        wpc, w_fail, w_err, wfile, wbytes = log['write']
-        items.append(('write_all is reached only when create succeeded', T.implies(T.and_many(list(wpc)), T.lnot(c_fail))))
-        items.append(('write_all writes to the created file', 1 if (type(wfile) is L and wfile.tag == 'File') else 0))
-        whole = type(wbytes) is SliceRef and wbytes.c is S0[0] and wbytes.start == 0 and wbytes.len == len(S0[0])
-        items.append(('write_all receives exactly the bytes of the rendering', 1 if whole else 0))
-        disc = r[0]
-        items.append(('Ok(()) iff create and write_all both succeeded', T.eq(1, T.eq(64, disc, 0), T.land(T.lnot(c_fail), T.lnot(w_fail)))))
+    items.append(('a write is attempted', 1 if log['writes'] else 0))
+    disc = r[0]
+    is_ok = T.eq(64, disc, 0)
+    if 'create' in log and log['files']:
+        f = log['files'][0]
+        for (wpc, kind, w_fail, w_err, wbytes) in log['writes']:
+            items.append(('writes are reached only when create succeeded', T.implies(T.and_many(list(wpc)), T.lnot(c_fail))))
+        # the heart of the property: Ok(()) only if the file then holds exactly the rendering
+        items.append(('Ok(()) only if the file holds exactly the bytes of the rendering', T.implies(is_ok, T.land(T.lnot(c_fail), f[0]))))
+        # a failed create or a reported write failure is never turned into Ok
+        reported = T.or_many([T.land(T.and_many(list(wpc)), wf) for (wpc, kind, wf, we, wb) in log['writes']])
+        items.append(('a failed create or a failed write is returned as Err', T.implies(T.lor(c_fail, reported), T.lnot(is_ok))))
+        items.append(('when every call succeeds the result is Ok(())', T.implies(T.land(T.lnot(c_fail), T.lnot(T.or_many([wf for (_, _, wf, _, _) in log['writes']]))), is_ok) if not any(k == 'bufwriter' for (_, k, _, _, _) in log['writes']) else 1))
         errs = r[1].get(1) if r.tag == 'symenum' else None
         if errs is None:
             items.append(('an Err value is representable', 0))
         else:
-            e = errs[0]           # SvgError value (possibly merged)
+            e = errs[0]
             idx, dv, nf = prog.variant('SvgError', 'IoError')
-            ed = e[0]
-            items.append(('every error is SvgError::IoError', T.implies(T.ne(64, disc, 0), T.eq(64, ed, dv))))
+            items.append(('every error is SvgError::IoError', T.implies(T.ne(64, disc, 0), T.eq(64, e[0], dv))))
             payload = e[1] if e.tag == 'enum' else e[1].get(dv)[0]
-            # the carried error is the failing call's error value (create's if create failed, else write_all's)
-            if type(payload) is L and payload.tag == 'IoError':
-                want_id = T.ite(8, c_fail, log['create'][2][0], w_err[0])
-                items.append(('the error carried is the io::Error of the call that failed', T.implies(T.ne(64, disc, 0), T.eq(8, payload[0], want_id))))
-            else:
-                items.append(('the error carried is an io::Error', 0))
+            items.append(('the error carried is an io::Error value', 1 if (type(payload) is L and payload.tag == 'IoError') else 0))
     pan = [('%s@%s: %s' % (o.kind, o.where, o.msg[:40]), T.implies(T.and_many(list(o.pc)), o.cond)) for o in I.obligations]
-    return finish_job(res, I, items, pan, 'SvgBuilder::to_file', 'outcome of File::create and of write_all (one boolean each), content of the rendering')
+    return finish_job(res, I, items, pan, 'SvgBuilder::to_file', 'outcome of File::create and of every write (one boolean each), content of the rendering')
 
 
 def job_image(job):
@@ -180,13 +244,17 @@ def confirm_native(chk, f):
     d = tempfile.mkdtemp(prefix='fqv-c19-')
     mod = '00' * 441
     out = []
-    for label, path in (('ok', os.path.join(d, 'a.svg')), ('missing directory', os.path.join(d, 'nope', 'a.svg')), ('path is a directory', d)):
+    for label, path in (('ok', os.path.join(d, 'a.svg')), ('missing directory', os.path.join(d, 'nope', 'a.svg')), ('path is a directory', d),
+                        ('device full', '/dev/full')):
+        if label == 'device full' and not os.path.exists('/dev/full'):
+            continue
         ans = native.ask('svg_to_file v=0 mod=%s path=%s' % (mod, path.encode().hex()))
         out.append((label, ans[:80]))
     native.close()
     import shutil
     shutil.rmtree(d, ignore_errors=True)
     bad = [o for o in out if (o[0] == 'ok' and o[1] != 'OK same=true') or (o[0] != 'ok' and not o[1].startswith('ERR'))]
+    # a write to /dev/full must not be reported as success
     f['replay'] = {'native_fault_runs': out}
     if bad:
         f['confirmed'] = True
